@@ -108,6 +108,8 @@ def generate(rng):
     if rng.random() < 0.3:
         # run(logfile=...): the log is the transcript of the whole dialogue, reads and responses in the order they happened
         scn['logfile'] = True
+        if rng.random() < 0.3:
+            scn['log_kind'] = 'len'
     if rng.random() < 0.3:
         scn['extra_args'] = {'k': rng.randint(0, 99)}
     if enc_is_utf8(scn) and rng.random() < 0.3:
@@ -272,8 +274,8 @@ def run(scn):
             kw['encoding'] = enc
         runlog = None
         if scn.get('logfile'):
-            from .sendlog import SeqLog
-            runlog = SeqLog([0], 'logfile')
+            from .sendlog import make_log
+            runlog = make_log(scn, [0], 'logfile')
             kw['logfile'] = runlog
         if 'extra_args' in scn:
             kw['extra_args'] = dict(scn['extra_args'])
